@@ -28,6 +28,7 @@ EXPLANATION += " C13.R6: every ReadWriteLogRecord setter stores each parameter o
 EXPLANATION += ' C13.R8 (callback contract): the attribute copy callbacks the log record and its API setter hand to ForEachKeyValue never ask the iteration to stop. C13.R2 and C13.R4 are evaluated on the flow graph with private / file-local helpers inlined (fan-out loops in range-for, index or iterator form).'
 ROUND2_EXPLANATION = (' C13.R9: an identity setter (re)creates the shared trace-identity block only when it is null (pinned). Shared C19.R7: every named constructor parameter of LoggerProvider / LoggerContext is used.')
 ROUND2_EXPLANATION += (" C13.R10: a string view built from a nullable name pointer (EventId::name_) is guarded by a null test of that pointer (D21, fixed). C13.R11: the API template overloads that receive a null record from CreateLogRecord return without dereferencing it. Shared C01.R5: every constructor of the batch log processor creates its queue with the configured max_queue_size.")
+ROUND2_EXPLANATION += (" C13.R3 also: the argument of SetResource originates from GetResource() of this logger's context and the argument of SetInstrumentationScope from this logger's own scope.")
 EXPLANATION += ROUND2_EXPLANATION
 NOT_DECIDED = 'value equality at export; that every argument combination compiles to the documented setter beyond the instantiated ones.'
 
@@ -151,6 +152,35 @@ def rule_r3(ck, prog, rule='C13.R3'):
         pts = [p for p in g.points if p.n is not None and p.n['k'] == 'call' and p.n.get('virt') and strip_targs(p.n.get('c', '')).rsplit('::', 1)[-1] == s]
         ok = bool(pts) and all(g.must_pass(o, pts) for o in onemit)
         ck.verdict(ok, rule, f, '%s-before-onemit' % s, pts[0].n if pts else None, '%s precedes OnEmit' % s if ok else 'the record reaches the processor without %s' % s)
+    # what is set is the logger's own: the resource of the context this logger belongs to, the scope this logger was created with
+    rd = reaching_defs(g)
+    for (s, wants, what) in (('SetResource', ('LoggerContext::GetResource',), 'the resource of its provider\'s context'),
+                             ('SetInstrumentationScope', ('Logger::GetInstrumentationScope',), 'the instrumentation scope of this logger')):
+        for p in [p for p in g.points if p.n is not None and p.n['k'] == 'call' and p.n.get('virt') and strip_targs(p.n.get('c', '')).rsplit('::', 1)[-1] == s and p.n.get('args')]:
+            srcs = origins(g, rd, p.f, p.n['args'][0], p.ctx)
+            good = bool(srcs)
+            for (sf, sn, sc) in srcs:
+                if sn['k'] == 'call' and any(strip_targs(sn.get('c', '')).endswith(w) for w in wants):
+                    # called on this logger / on this logger's context member
+                    o = sn.get('obj')
+                    ap = access_path(sf, o, sc) if o is not None else ('this',)
+                    if ap[:1] == ('this',) or (o is not None and sf.nodes[o]['k'] == 'this'):
+                        continue
+                    on = strip_casts(sf, o) if o is not None else None
+                    while on is not None and on['k'] == 'call' and on.get('op') in ('->', '*') and on.get('obj') is not None:
+                        on = strip_casts(sf, on['obj'])
+                    if on is not None and access_path(sf, on['i'], sc)[:1] == ('this',):
+                        continue
+                    good = False
+                elif sn['k'] == 'member' and access_path(sf, sn['i'], sc)[:1] == ('this',) and s == 'SetInstrumentationScope':
+                    continue
+                elif sn['k'] == 'unop' and sn.get('op') == '*' and s == 'SetInstrumentationScope' and \
+                        any(sf.nodes[j]['k'] == 'member' and access_path(sf, j, sc)[:1] == ('this',) for j in sf.subtree(sn['i'])):
+                    continue
+                else:
+                    good = False
+            ck.verdict(good, rule, f, '%s-own' % s, p.n, 'the record receives %s' % what if good else
+                       'the record handed to the processor does not receive %s (it is given something else)' % what)
     multi = len(onemit) != 1 or any(b.id in g.reachable_from([q for (q, _l) in a.succ]) for a in onemit for b in onemit)
     ck.verdict(not multi, rule, f, 'one-onemit-per-path', onemit[0].n, 'exactly one OnEmit' if not multi else 'a record can be handed to the processor twice')
 
